@@ -448,34 +448,41 @@ def qudit_oracle(args):
     from mqt.yaqs.core.data_structures.networks import MPO, MPS
     from mqt.yaqs.core.data_structures.simulation_parameters import AnalogSimParams, EvolutionMode, Observable
 
-    L, d, T = args["L"], 3, args.get("T", 1.0)
+    L, d, T = args["L"], int(args.get("d", 3)), args.get("T", 1.0)
     if args["ham"] == "bose":
         H = MPO.bose_hubbard(length=L, local_dim=d, omega=0.8, hopping_j=0.7, hubbard_u=0.5)
     else:
         H = MPO.coupled_transmon(length=L, qubit_dim=d, resonator_dim=d, qubit_freq=1.0, resonator_freq=0.9, anharmonicity=-0.2, coupling=0.6)
-    hd = np.asarray(H.to_matrix())
     start = args["start"]
     v0 = dense.mps_dense(MPS(L, state="basis", basis_string=start, physical_dimensions=[d] * L))
-    ref = dense.evolve(hd, v0, T)
+    if d ** L > 2000:  # many levels per site: the local problems of the sweep reach thousands of entries (compiled Krylov path)
+        import scipy.sparse as sp
+        import scipy.sparse.linalg as spl
+
+        hd = sp.csr_matrix(np.asarray(H.to_matrix()))
+        ref = spl.expm_multiply(-1j * T * hd.tocsc(), v0)
+    else:
+        hd = np.asarray(H.to_matrix())
+        ref = dense.evolve(hd, v0, T)
     e0 = dense.expect(v0, hd)
     errs = []
     dts = (0.1, 0.05) if args["mode"] == "TDVP" else (0.05, 0.025)
     for dt in dts:
         # threshold far below every weight that matters: a rank-adaptive integrator started from a product state grows new directions
         # from weights of order dt^2 and smaller, which the default threshold (1e-6) would prune again at every step
-        par = AnalogSimParams([Observable(start)], elapsed_time=T, dt=dt, order=args["order"], sample_timesteps=False, get_state=True, threshold=1e-13,
+        par = AnalogSimParams([Observable(start)], elapsed_time=T, dt=dt, order=args["order"], sample_timesteps=False, get_state=True, threshold=float(args.get("threshold", 1e-13)),
                               show_progress=False, evolution_mode=EvolutionMode.BUG if args["mode"] == "BUG" else EvolutionMode.TDVP)
         with common.time_limit(300):
             simulator.run(MPS(L, state="basis", basis_string=start, physical_dimensions=[d] * L), H, par, None, parallel=False)
         vT = dense.mps_dense(par.output_state)
         if abs(np.linalg.norm(vT) - 1) > 1e-6:
-            return f"{args['ham']} L={L} (d=3) {args['mode']} order {args['order']}: norm of the final state is {np.linalg.norm(vT):.8f}"
-        if args["mode"] == "TDVP" and abs(dense.expect(vT, hd) - e0) > 1e-5 * max(1.0, np.linalg.norm(hd, 2)):
-            return f"{args['ham']} L={L} (d=3) order {args['order']}: energy drifts from {e0:.8f} to {dense.expect(vT, hd):.8f} (dt={dt}, default bond limits)"
+            return f"{args['ham']} L={L} (d={d}) {args['mode']} order {args['order']}: norm of the final state is {np.linalg.norm(vT):.8f}"
+        if args["mode"] == "TDVP" and abs(dense.expect(vT, hd) - e0) > 1e-5 * max(1.0, float(abs(hd).sum(axis=1).max())):
+            return f"{args['ham']} L={L} (d={d}) order {args['order']}: energy drifts from {e0:.8f} to {dense.expect(vT, hd):.8f} (dt={dt}, default bond limits)"
         errs.append(dense.up_to_phase(vT, ref))
     tol = 2e-3 if args["mode"] == "TDVP" else 6e-2
     if errs[1] > tol or (args["mode"] == "BUG" and errs[0] > 1e-5 and errs[1] > errs[0] / 1.5):
-        return (f"{args['ham']} L={L} (d=3) {args['mode']} order {args['order']}: final state is {errs[1]:.3e} away from exp(-iHT)|psi0> at dt={dts[1]} "
+        return (f"{args['ham']} L={L} (d={d}) {args['mode']} order {args['order']}: final state is {errs[1]:.3e} away from exp(-iHT)|psi0> at dt={dts[1]} "
                 f"({errs[0]:.3e} at dt={dts[0]}) with the default bond limit, start {start}")
     return None
 
@@ -505,6 +512,9 @@ def search(ctx):
         a = dict(ham=hamk, L=L, start=start, order=1 + k % 2, mode="TDVP" if k != 2 else "BUG")
         if a["mode"] == "BUG":
             a["order"] = 2
+        if k == 0:  # eight levels per site: two-site blocks of 64 x 8 x 8 entries in the middle of the chain
+            a.update(d=8, start="2121", T=0.6, threshold=0.0)  # nothing is cut: the bonds reach 8 | 64 | 8
+            ctx.count("qudit_chains_eight_levels")
         try:
             why = qudit_oracle(a)
         except common.HardTimeout:
